@@ -857,6 +857,40 @@ def _payload(ctx):
     ctx.ob('C15.4', get, loads[0] if loads else None, ok,
            'the reader tries json.loads first (YAML only as a fallback of a '
            'failed JSON parse)', construct='reader decoder order')
+    # an empty list or dictionary is a value: the writers decide "no payload
+    # given" by identity with None, never by truthiness (a second write of []
+    # would leave the old object in the node)
+    nz = N.Normaliser()
+    judged = 0
+    for fname in ('_payload', 'ensure_exists', 'put', 'update', 'create'):
+        func = mod.functions.get(fname)
+        if func is None or 'data' not in func.params():
+            continue
+        fgraph = ctx.cfg(func)
+        for test in [n for n in fgraph.nodes if n.kind == 'test' and
+                     n.ast is not None]:
+            expr = K.test_expr(func, test) or test.ast
+            if 'data' not in N.mentions(expr):
+                continue
+            try:
+                key = nz.atom(expr).key
+            except Exception:          # pylint: disable=broad-except
+                continue
+            if key[0] == 'truth' and key[1] == 'data':
+                judged += 1
+                ctx.fail('C15.4', func, test,
+                         '%s decides on the truth value of the payload: an '
+                         'empty list or dictionary is treated as "no '
+                         'payload"' % fname,
+                         construct='%s payload presence test' % fname)
+            elif key[0] == 'is' and 'data' in key[1:3] and \
+                    'None' in key[1:3]:
+                judged += 1
+                ctx.ok('C15.4', func, test,
+                       '%s tests the payload by identity with None' % fname,
+                       construct='%s payload presence test' % fname)
+    ctx.require(judged >= 2, 'payload presence tests in the zkutils writers '
+                '(found %d)' % judged, rule='C15.4')
 
 
 def _schema_tables(cls):
@@ -1049,7 +1083,33 @@ def _ldap(ctx):
            construct='option attribute template')
 
 
+def _update_markers(ctx):
+    """C15.5: an update hands the directory the entry exactly as to_entry
+    built it - the attributes to_entry emits with an empty value are what
+    makes the differ delete the stored values (a list that became empty);
+    empty values are stripped only for a create, where nothing is stored
+    yet."""
+    mod = ctx.index.module(LDAP)
+    cls = mod.classes.get('LdapObject')
+    upd = cls.methods.get('update') if cls else None
+    ctx.require(upd is not None, 'LdapObject.update', rule='C15.5')
+    sends = [c for c in K.calls(upd.node)
+             if K.is_meth(c, 'update') and
+             (K.recv_text(c) or '').endswith('admin') and len(c.args) == 2]
+    ctx.require(sends, 'the admin.update call of LdapObject.update',
+                rule='C15.5', func=upd)
+    for call in sends:
+        sent = K.rexpr(upd, call.args[1])
+        ok = isinstance(sent, ast.Call) and K.is_meth(sent, 'to_entry') and \
+            K.recv_text(sent) == 'self'
+        ctx.ob('C15.5', upd, call, ok,
+               'update sends the entry as to_entry built it, empty-valued '
+               'deletion markers included (%s)' % N.txt(sent),
+               construct='update keeps the deletion markers')
+
+
 def check(ctx):
+    _update_markers(ctx)
     _rulefile(ctx)
     _unique(ctx)
     _events(ctx, EV_APP, 'AppTraceEvent', 'AppTraceEventTypes')
